@@ -57,6 +57,11 @@ func callPred(t *tensor.Dense, name string, x, y interface{}) Outcome {
 			return t.MaskedInside(x, y)
 		case "MaskedOutside":
 			return t.MaskedOutside(x, y)
+		case "ResetMask":
+			if !t.IsMasked() {
+				return nil // ResetMask of an unmasked tensor would attach a mask: not what is examined here
+			}
+			return t.ResetMask()
 		}
 		panic(name)
 	})
